@@ -305,13 +305,12 @@ class Keyword(Object):
 
 
 def strip_digit_separators(number):
-    # Don't strip a _ or , if it's the first character, as _42 and
-    # ,42 aren't valid numbers
-    return (
-        number[0] + number[1:].replace("_", "").replace(",", "")
-        if isinstance(number, str) and len(number) > 1
-        else number
-    )
+    # Don't strip a _ or , if it's the first character (possibly after
+    # a sign), as _42, ,42, and -_42 aren't valid numbers
+    if not (isinstance(number, str) and len(number) > 1):
+        return number
+    n = 2 if number[0] in "+-" else 1
+    return number[:n] + number[n:].replace("_", "").replace(",", "")
 
 
 class Integer(Object, int):
@@ -322,15 +321,17 @@ class Integer(Object, int):
     __match_args__ = ("_as_int",)
 
     def __new__(cls, number, *args, **kwargs):
+        number = strip_digit_separators(number)
         return super().__new__(
             cls,
             int(
-                strip_digit_separators(number),
+                number,
                 **(
                     {"base": 0}
-                    if isinstance(number, str) and not number.isdigit()
-                    # `not number.isdigit()` is necessary because `base = 0`
-                    # fails on decimal integers starting with a leading 0.
+                    if isinstance(number, str)
+                    and not number.lstrip("+-").isdigit()
+                    # This check is necessary because `base = 0` fails on
+                    # decimal integers starting with a leading 0.
                     else {}
                 ),
             ),
